@@ -862,13 +862,14 @@ theorem dfs_ok (G : Graph) : ∀ (fuel v : Nat) (st : DSt), v ∈ G.nodes → DO
   | succ f ih =>
     intro v st hv h
     unfold dfs
-    simp only
     refine foldl_pres (fun (acc : DSt × Nat) => DOk G acc.1) _ (G.sadj v) ?_ _ h
     intro acc w hw hacc
     have hwn : w ∈ G.nodes := sadj_sub G hw
     have hvw : v ≠ w := ((mem_sadj G v w).1 hw).1
     have hsym : v ∈ G.sadj w := by
       rw [mem_sadj]; exact ⟨fun e => hvw e.symm, ((mem_sadj G v w).1 hw).2.symm⟩
+    unfold dfsStep
+    simp only
     split
     · have h1 : DOk G (dfs G.sadj f w { acc.1 with parent := aset acc.1.parent w (some v) }) :=
         ih w _ hwn hacc
